@@ -30,6 +30,7 @@ import (
 	mhprimary "github.com/ipld/go-storethehash/store/primary/multihash"
 	"github.com/ipld/go-storethehash/store/types"
 	"github.com/ipld/go-storethehash/store/verifhook"
+	"verifharness/fsck"
 )
 
 // freeCensus reads, after the final Close and reopen (all pools written, nothing running), which primary locations the index names for the
@@ -491,6 +492,7 @@ wait:
 	finalReopened := map[string]string{}
 	finalCollected := map[string]string{}
 	var census map[string]interface{}
+	fsckFlushed, fsckReopened := "not run", "not run"
 	if len(stuck) == 0 && !closing {
 		seen := map[string]bool{}
 		var keys [][]byte
@@ -526,6 +528,16 @@ wait:
 		s.Put([]byte{0x12, 6, 9, 9, 9, 0xfe, 0xfe, 0xfe}, []byte("x"))
 		s.Flush()
 		readAll(s, finalFlushed)
+		// C07 over schedules: the independent reader of the formats judges the real files now that everything has ended and both pools are written
+		fsckOf := func(st *store.Store) string {
+			tbl := st.Index().VerifBuckets()
+			t := make([]uint64, len(tbl))
+			for i, p := range tbl {
+				t[i] = uint64(p)
+			}
+			return fsck.Check(dir, fsck.Config{Bits: uint8(atoi("bits")), Imax: uint32(atoi("imax")), Pmax: uint32(atoi("pmax"))}, t)
+		}
+		fsckFlushed = fsckOf(s)
 		if err := s.Close(); err != nil {
 			finalReopened["close"] = "ERR:" + err.Error()
 		} else {
@@ -535,6 +547,7 @@ wait:
 				finalReopened["open"] = "ERR:" + err.Error()
 			} else {
 				readAll(s2, finalReopened)
+				fsckReopened = fsckOf(s2)
 				census = freeCensus(dir, s2, append(keys, []byte{0x12, 6, 9, 9, 9, 0xfe, 0xfe, 0xfe}), int64(atoi("pmax")))
 				// and two further primary GC cycles (the second applies what the first one freed): a location that was freed although
 				// the index names it is destroyed now, and shows as a lost key
@@ -565,7 +578,7 @@ wait:
 		outs = append(outs, tout{t.Name, t.Op.Kind, hex.EncodeToString(t.Op.Key), hex.EncodeToString(t.Op.Val), t.Status, t.Res, t.Found, t.Out, t.Start, t.End})
 	}
 	var sb bytes.Buffer
-	json.NewEncoder(&sb).Encode(map[string]interface{}{"threads": outs, "stuck": stuck, "events": log, "final": final, "final_flushed": finalFlushed, "final_reopened": finalReopened, "final_collected": finalCollected, "census": census, "flushes_in_free_run": nflush,
+	json.NewEncoder(&sb).Encode(map[string]interface{}{"threads": outs, "stuck": stuck, "events": log, "final": final, "final_flushed": finalFlushed, "final_reopened": finalReopened, "final_collected": finalCollected, "census": census, "fsck_flushed": fsckFlushed, "fsck_reopened": fsckReopened, "flushes_in_free_run": nflush,
 		"quiet_timeouts": quietTimeouts, "quiet_threads": quietThreads, "unfinished_at_free_run": unfinishedAtFreeRun, "must_release": mustRelease, "unreleased": unreleased})
 	os.Stdout.Write(sb.Bytes())
 	if len(stuck) > 0 {
